@@ -13,6 +13,8 @@ export CARGO_NET_OFFLINE=true CARGO_TARGET_DIR=/var/tmp/confirm_target_$tag
 demo=/tmp/seed_${tag}_demo.rs
 first=$(head -1 $demo)
 feat=""; if grep -q "in_memory\|InMemoryTerm" $demo; then feat="--features in_memory"; fi
+fl=$(head -3 $demo | grep -o "features: *[a-z_,]*" | head -1 | sed 's/features: *//')
+if [ -n "$fl" ]; then feat="--features $fl"; fi
 install_demo() {
   if echo "$first" | grep -q "append-to:"; then
     f=$(echo "$first" | sed 's/.*append-to: *//' | awk '{print $1}')
